@@ -53,8 +53,9 @@ def run(idx: Index, rep: Report, tier: str) -> None:
     # stores into the checked map are guarded by the compatibility test
     for n in cfg.nodes:
         if isinstance(n.ast, ast.Assign) and isinstance(n.ast.targets[0], ast.Subscript) and norm(n.ast.targets[0].value).startswith("new_sub"):
-            gs = guards_dominating(cfg, n)
-            ok = any("is_compatible" in norm(t.ast) and outcome for t, outcome in gs)
+            from ..rules2 import path_facts
+
+            ok = any("is_compatible" in txt and val for txt, val in path_facts(cfg, n))
             rep.check(ok, rule1, "substitute: only compatible pairs enter the map", sub.loc(n.ast), construct=norm(n.ast), function=sub.qualname)
 
     # ---------------------------------------------------------------- (2) quantifiers
